@@ -220,7 +220,7 @@ def run_case(case):
 def main(tier, seed):
     V = core.Verdict(PROPERTY, tier, seed)
     r = core.rng(PROPERTY, seed)
-    nb = 160 if tier == 'quick' else 3000
+    nb = 320 if tier == 'quick' else 3000
     have512 = 'avx512f' in open('/proc/cpuinfo').read()
     cases = {'rel': [], 'avx512': []}
     for i in range(nb):
